@@ -496,6 +496,32 @@ static int dfs(int maxpre, long maxsched, int shard, int nshards) {
 }
 
 /* ---------------------------------------------------------------- fork mode */
+/* C16 fork arm: with libvheap.so preloaded, the number of live blocks allocated by libsnoopy.so (-1 without the monitor) */
+static long snoopy_live_now(void) {
+    int (*snap)(char *, size_t) = (int (*)(char *, size_t)) dlsym(RTLD_DEFAULT, "vheap_snapshot");
+    if (!snap) return -1;
+    static char hb[65536];
+    int n = snap(hb, sizeof hb - 1);
+    if (n <= 0) return -1;
+    hb[n] = 0;
+    const char *q = strstr(hb, "\"snoopy_live\":");
+    return q ? atol(q + 14) : -1;
+}
+static long heap_base = -1;
+
+static void report_child_heap(void) {
+    const char *fn = getenv("VSCHED_CHILDHEAP");
+    int (*snap)(char *, size_t) = (int (*)(char *, size_t)) dlsym(RTLD_DEFAULT, "vheap_snapshot");
+    if (!fn || !snap) return;
+    static char hb[65536];
+    int n = snap(hb, sizeof hb - 1);
+    if (n <= 0) return;
+    int fd = open(fn, O_WRONLY | O_CREAT | O_TRUNC, 0644);
+    if (fd < 0) return;
+    if (write(fd, hb, n) != n) {}
+    close(fd);
+}
+
 static void *child_thread_exec(void *a) {
     (void) a;
     do_call("CHILDTHREADz", 0);
@@ -533,6 +559,7 @@ static void *forker_thread(void *a) {
             _exit(0);
         }
         do_call("CHILDz", 0);
+        report_child_heap();
         if (write(pfd[1], "C", 1) != 1) _exit(9);
         _exit(0);
     }
@@ -546,6 +573,11 @@ static int fork_scenario(void) {
     truncate(logpath, 0);
     fk_mode = 1;
     NT = fk_victims;
+    if (dlsym(RTLD_DEFAULT, "vheap_snapshot")) {
+        /* C16 fork arm only: steady state of a single-threaded process after one complete call */
+        do_call("WARMUPz", 0);
+        heap_base = snoopy_live_now();
+    }
     for (long t = 0; t < NT; t++) {
         sem_init(&th[t].sem, 0, 0);
         pthread_create(&th[t].pt, NULL, worker, (void *) t);
@@ -647,9 +679,9 @@ static int fork_scenario(void) {
         if (th[t].state == S_DONE) victims_done++;
     sched_active = 0;
     printf("{\"ev\":\"FORK\",\"victims\":%d,\"stop_at\":%d,\"stop_kind\":\"%s\",\"child_kind\":%d,\"parked\":%d,\"points_seen\":%d,\"child_done\":%d,\"child_status\":%d,"
-           "\"fork_waited_for_lock\":%d,\"child_reached_end\":\"%c\",\"child_blocked_samples\":%d,\"child_syscall\":\"%s\",\"victims_done\":%d,\"problem\":\"%s\",",
+           "\"heap_base\":%ld,\"fork_waited_for_lock\":%d,\"child_reached_end\":\"%c\",\"child_blocked_samples\":%d,\"child_syscall\":\"%s\",\"victims_done\":%d,\"problem\":\"%s\",",
            fk_victims, stop_at_arg, fk_label, fk_child_kind, parked, points, done, done && WIFEXITED(st) ? WEXITSTATUS(st) : -1,
-           fork_waited_for_lock, got ? got : '-', blocked_samples, sysc, victims_done, problem);
+           heap_base, fork_waited_for_lock, got ? got : '-', blocked_samples, sysc, victims_done, problem);
     dump_records(stdout);
     printf("\"nreal\":%ld}\n", nreal_calls);
     fflush(stdout);
